@@ -331,6 +331,7 @@ def run(ctx):
     subdivision_scenarios(ctx, 'R11.7', [(1, [(0, 0), (0, 1), (1, 0), (1, 1)])], mode='soundness')
 
     # ---------------------------------------------------------------- R11.8 positions are compared with an absolute tolerance
+    _arc_point_to_t_axis_points(ctx, mdl)
     ctx.rule('R11.8', 'point_to_t: an isclose() test between POSITIONS (values that move with a translation of the figure) has rtol = 0: a relative '
                       'tolerance grows with the distance from the origin and accepts points that are not on the segment', 2)
     SHIFT = Rat.csym('SHIFT')
@@ -523,3 +524,56 @@ def subdivision_scenarios(ctx, rule, scenarios, mode='all'):
                            'ext_hooks': {'builtins.int': lambda it, a, k: 5, 'math.ceil': lambda it, a, k: Rat.sym('CEIL'),
                                          'math.log': lambda it, a, k: Rat.sym('LOG')},
                            'presign': pres})
+
+
+def _arc_point_to_t_axis_points(ctx, mdl):
+    """Arc.point_to_t on concrete unrotated circles between axis points (every quantity exact): the axis points the arc passes,
+    taken exactly and displaced radially OUTWARD by 1e-9 r (inside the function's own radius tolerance; the acos/asin argument is
+    then just beyond +-1, as rounding makes it for real data), map to their parameter j/steps."""
+    ctx.rule('R11.9', 'Arc.point_to_t on concrete axis circles: the axis points on the arc, exact and displaced outward by 1e-9 r, map to '
+                      'their parameter (the inverse-trig arguments are clamped to the nearer of -1 and +1, never dropped)', 4)
+    fi = mdl.func('path.Arc.point_to_t')
+    unit = [Rat.const(1), Rat.const(1j), Rat.const(-1), Rat.const(-1j)]
+    eps = Rat.const(1 + Fr(1, 10 ** 9))
+    for large in (False, True):
+        for sweep in (False, True):
+            bad = []
+            und = None
+            n = 0
+            for c, r in ((Rat.const(0), 1), (Rat.const(2 + 3j), 2)):
+                for k0 in range(4):
+                    sgn = 1 if sweep else -1
+                    steps = 3 if large else 1
+                    k1 = (k0 + sgn * steps) % 4
+                    n += 1
+
+                    def th(it, c=c, r=r, k0=k0, k1=k1, sgn=sgn, steps=steps):
+                        a = it.construct('path.Arc', c + r * unit[k0], Rat.const(complex(r, r)), Rat.const(0), large, sweep, c + r * unit[k1])
+                        out = []
+                        for j in range(steps + 1):
+                            u = unit[(k0 + sgn * j) % 4]
+                            out.append((j, 'exact', it.call_method(a, 'point_to_t', c + r * u)))
+                            out.append((j, 'displaced outward', it.call_method(a, 'point_to_t', c + r * u * eps)))
+                        return out
+                    try:
+                        paths = explore(mdl, th, {})
+                    except Undecidable as e:
+                        und = und or str(e)
+                        continue
+                    for pth in paths:
+                        if pth.raised is not None:
+                            bad.append('raises %s' % pth.raised.exc_name)
+                            continue
+                        for j, how, t in pth.value:
+                            want = Fr(j, steps)
+                            from svtstatic.values import concrete_number
+                            got = concrete_number(t) if t is not None else None
+                            if got is None or abs(float(got) - float(want)) > 1e-9:
+                                bad.append('circle centre %s radius %d from angle %d (%s, %s): the axis point %d/%d (%s) maps to %s' % (
+                                    short(c, 8), r, 90 * k0, 'sweep' if sweep else 'no sweep', 'large' if large else 'small', j, steps, how,
+                                    short(repr(t), 20)))
+            label = 'large_arc=%s sweep=%s: %d concrete arcs, axis points exact and displaced' % (large, sweep, n)
+            if und and not bad:
+                ctx.undecided('R11.9', fi.qualname, label, und, where=where(fi))
+            else:
+                ctx.record('R11.9', fi.qualname, label, not bad, detail='; '.join(bad[:3]), where=where(fi), sample={'arcs': n})
